@@ -211,6 +211,10 @@ class SetMembersMixin:
                         # Accessing file paths can trigger a builtin module error.
                         with suppress(AliasResolutionError, CyclicAliasError, BuiltinModuleError):
                             if not value.is_alias and value.is_module and value.filepath != member.filepath:
+                                # Attach the new module first: members merged into it register their aliases
+                                # under their path, which must already be the final one.
+                                if not self.is_collection:  # type: ignore[attr-defined]
+                                    value.parent = self  # type: ignore[assignment]
                                 with suppress(ValueError):
                                     value = merge_stubs(member, value)  # type: ignore[arg-type]
                     aliases = list(member.aliases.values())
